@@ -16,6 +16,12 @@ TRUSTED = [
     'queue.Queue/SimpleQueue semantics; one atomic step = one synchronisation operation, the thread-local code after it '
     '(incl. GIL-atomic reads/writes of plain shared attributes) is fused into the step, in the model and under the shim alike',
     'pre-emption inside a C-level queue operation or between two plain attribute accesses is not explored',
+    'queue backends: Model/QueueBackend.lean writes the three operations of queue.Queue / queue.SimpleQueue / asyncio.Queue as CPython '
+    'documents them (validated three-way each run on random operation sequences: real object = shim = Lean instance); the exception '
+    'class lattice is flat below Exception (true of the four queue classes in CPython 3.12); translate/queue_exc.py (clause order, '
+    'classes named, role of a clause decided from what its body does) is validated each run against eval + issubclass on the real module',
+    'async API: the deterministic event loop (harness/lib_queue_backends.DetLoop) replaces the selector wait by a scheduler yield '
+    'point and run_in_executor threads by managed threads; asyncio task scheduling inside the loop is CPython\'s (FIFO ready queue)',
 ]
 ASSUMPTIONS = ['producer count declared up front (max_enqueuer = number of producers), as piter_multiplex does; '
                'undeclared late-starting producers are the known input class F22']
@@ -26,7 +32,26 @@ RULE = ('configurations: 1-3 producers x 1-3 consumers (get loop / get_batch loo
         'non-trivial = at least 2 threads took turns at least 10 times in the schedule. '
         'Model-guided stage: for 4 fixed small configurations, seeded random walks on the Lean LTS are reduced (greedy cover) '
         'to schedules that together execute every program point (Pc constructor) reachable without failure/stop/timeout; '
-        'each is replayed on the REAL code, compared as above and checked by the oracle; histograms pc / pc_unreached')
+        'each is replayed on the REAL code, compared as above and checked by the oracle; histograms pc / pc_unreached. '
+        'Round 10 (queue BACKENDS, harness/lib_queue_backends.py): the same schedule-replay family over every buffer the constructors '
+        'accept -- IteratorQueue(n) default, IteratorQueue(queue.Queue(n) | queue.SimpleQueue() | asyncio.Queue(n) | duck object with '
+        'exactly put_nowait/get_nowait/empty raising queue.* or asyncio.Queue* classes), IteratorQueue.from_queue(asyncio.Queue(n)), '
+        'AsyncIteratorQueue(n) -- bounded and unbounded, 12 cases per arm (quick): a quarter producers-first (phased schedule: the '
+        'producers run until parked on the full buffer), a quarter consumers-first, the rest random / PCT; the shims raise the REAL '
+        'exception classes of their backend; 4 of the 8 model-guided configurations run on non-default backends; coverage enforced '
+        "(exit 2) per backend x bounded/unbounded x API: the arm ran, a consumer met the backend's Empty and parked, and (bounded) a "
+        "producer met the backend's Full and parked -- never masking a verdict. Async API: AsyncIteratorQueue(int | queue.Queue | "
+        'queue.SimpleQueue | asyncio.Queue | duck) with one producer (async_enqueue_from_iterator or sync) and 1-2 consumers '
+        '(`async for`, anext, async_get, async_get_batch, sync get / get_batch) on a deterministic event loop (SelectorEventLoop '
+        'subclass: virtual clock, the selector is a scheduler yield point enabled when another thread handed the loop a callback, '
+        'run_in_executor jobs are managed threads); every operation is attributed to its LOGICAL thread (asyncio task / its executor '
+        'jobs) and the projection of the run onto the LTS alphabet must be an execution of the LTS (every choice enabled, same labels, '
+        'same per-thread outcomes; enabled SETS are not compared for async runs). Backend contract: 150 random put_nowait / '
+        'get_nowait / empty sequences on the real CPython object, its shim and the Lean Backend instance (three-way, exception '
+        'classes included) + an independent FIFO-with-capacity oracle. Real un-shimmed backends under OS threads (8 configurations, '
+        'producers first, C04 oracle). Table check: every `except` expression of put / get / get_batch / get_nowait evaluated in the '
+        "module's namespace and dispatched with issubclass on real classes vs `dispatch` over Generated/QueueExc.lean; "
+        '_default_queue(n) for n<4 vs the generated defaults')
 
 
 def gen_cases(ctx):
